@@ -1,12 +1,14 @@
 """C05 - several types in one file: order-independent, idempotent, lossless merge (sequential part;
 the schedules part is in threads.py and is run from here as well)."""
 import exportchecks
+import threads
 
 PROP = "C05"
 
 
 def run(tier):
-    return exportchecks.run_property(PROP, ["samefile", "samefile_all", "nasty"], tier)
+    return exportchecks.run_property(PROP, ["samefile", "samefile_all", "nasty"], tier, extra_stage=threads.run,
+                                     extra_assumptions=["thread runs: a 60 ms pause inside the critical section is enough for a second thread to get in if the lock did not keep it out (probe); event order is a sequence number taken inside the hook callback"])
 
 
 def replay(path):
